@@ -77,10 +77,10 @@ def compare_to_reference(case, ref, obs, config):
     return None
 
 
-def model_view(obs):
+def model_view(obs, with_sched=True):
     """What is compared with the Lean model."""
     v = {"status": obs["status"], "trace": [e for e in obs["trace"] if e[0] != "body"]}
-    if "sizes" in obs:
+    if with_sched:
         v["sizes"] = obs["sizes"]
         v["steps"] = obs["steps"]
     if obs["status"] == "ok":
@@ -174,7 +174,7 @@ class Checker:
             req = {"op": "blocking", "case": W.to_model(case)}
         else:
             req = {"op": "async", "case": W.to_model(case), "schedule": obs["choices"]}
-        self.pending.append((req, model_view(obs), case, config, sched))
+        self.pending.append((req, model_view(obs, sched is not None), case, config, sched))
         if len(self.pending) >= 4000:
             self.flush()
 
@@ -206,7 +206,7 @@ class Checker:
                 req = ({"op": "blocking", "case": W.to_model(c)} if s is None
                        else {"op": "async", "case": W.to_model(c), "schedule": obs["choices"]})
                 got = model_answer_view(ctx.driver.ask([req])[0], s is not None)
-                if json.dumps(got.get(key)) != json.dumps(model_view(obs).get(key)):
+                if json.dumps(got.get(key)) != json.dumps(model_view(obs, s is not None).get(key)):
                     return True
             return False
         try:
